@@ -662,12 +662,18 @@ static int reftable_reader_refs_for_indexed(struct reftable_reader *r,
 
 	/* Look through the reverse index. */
 	reftable_record_from_obj(&want_rec, &want);
+	reftable_record_from_obj(&got_rec, &got);
 	err = reader_seek(r, &oit, &want_rec);
+	if (err > 0) {
+		/* beyond the last object ID in the index. */
+		iterator_set_empty(it);
+		err = 0;
+		goto done;
+	}
 	if (err != 0)
 		goto done;
 
 	/* read out the reftable_obj_record */
-	reftable_record_from_obj(&got_rec, &got);
 	err = iterator_next(&oit, &got_rec);
 	if (err < 0)
 		goto done;
@@ -703,6 +709,13 @@ static int reftable_reader_refs_for_unindexed(struct reftable_reader *r,
 	struct filtering_ref_iterator empty = FILTERING_REF_ITERATOR_INIT;
 	int oid_len = hash_size(r->hash_id);
 	int err;
+
+	if (!r->ref_offsets.is_present) {
+		/* no refs in this table. */
+		reftable_free(ti);
+		iterator_set_empty(it);
+		return 0;
+	}
 
 	*ti = ti_empty;
 	err = reader_start(r, ti, BLOCK_TYPE_REF, 0);
